@@ -211,7 +211,7 @@ func c17Run(c *Ctx, hook func(bt *scratch.Batch) error) error {
 	rounds := c.N(1, 3)
 	per := c.N(48, 160)
 	bt, items, err := c17Build(n, func(i int) *ir.Request {
-		return gen.GenMultiServiceFile(r.Fork(fmt.Sprint("c17-", i)), i, gen.RuntimeOpts{Headers: true, ManyMethods: i%2 == 1, ErrorTypes: i%2 == 0, FlattenHome: true})
+		return gen.GenMultiServiceFile(r.Fork(fmt.Sprint("c17-", i)), i, gen.RuntimeOpts{Headers: true, ManyMethods: i%2 == 1, ErrorTypes: i%2 == 0, FlattenHome: true, SharedRequest: true})
 	}, scratch.AddOpts{GoHTTP: true, GoClient: true}, hook)
 	if err != nil {
 		return err
